@@ -1288,6 +1288,42 @@ theorem accept_panic (s : Sig) (isRet : Bool) (sel : Sel) (path : List Step) :
     acceptResolve s isRet sel path .panic ≠ "ok" := by
   simp [acceptResolve]
 
+/-! ## The property -/
+
+/-- **C07, the whole statement** (model of avo's gotypes with lower-bound tests
+against the toolchain's asmdecl layout), for every well-formed signature. -/
+def C07_statement : Prop :=
+  ∀ s : Sig, s.WF →
+    -- the declared argument size equals the toolchain's
+    s.bytes = asmArgSize s ∧
+    -- every address returned is the toolchain's name/offset of the component the path denotes
+    -- (frame), or the pointee's own offsets without symbol (through a loaded pointer)
+    (∀ isRet sel path a b, resolve s isRet sel path = .ok (a, b) → ResolveSpec s isRet sel path ⟨a, b⟩) ∧
+    -- a frame address never leaves the selected variable nor the argument block
+    (∀ isRet sel path a b, (∀ st ∈ path, st.isDeref = false) → resolve s isRet sel path = .ok (a, b) →
+      ∃ c, (s.tuple isRet).select sel = .ok c ∧ c.addr.disp ≤ a.disp ∧
+        a.disp + (b.size : Int) ≤ c.addr.disp + (sizeof c.ty : Int) ∧
+        0 ≤ c.addr.disp ∧ c.addr.disp + (sizeof c.ty : Int) ≤ (s.bytes : Int)) ∧
+    -- every existing scalar component is addressable
+    (∀ isRet sel path, MustResolve s isRet sel path → ∃ a b, resolve s isRet sel path = .ok (a, b)) ∧
+    -- an index or field that does not exist, or a step of the wrong kind, is an error
+    (∀ isRet sel path c, (s.tuple isRet).select sel = .ok c → pathTy c.ty path = none →
+      ∃ e, resolve s isRet sel path = .error e) ∧
+    -- a selector that denotes no variable is an error
+    (∀ isRet path (i : Int), (i < 0 ∨ ((s.tuple isRet).comps.length : Int) ≤ i) →
+      ∃ e, resolve s isRet (.at i) path = .error e)
+
+theorem C07 : C07_statement := by
+  intro s hwf
+  refine ⟨argsize_eq s, ?_, ?_, ?_, ?_, ?_⟩
+  · intro isRet sel path a b h; exact resolve_in_asmdecl s hwf isRet sel path a b h
+  · intro isRet sel path a b hdf h
+    obtain ⟨c, h1, h2, h3, h4, h5, _⟩ := resolve_inside s hwf isRet sel path a b hdf h
+    exact ⟨c, h1, h2, h3, h4, h5⟩
+  · intro isRet sel path h; exact must_resolve_resolves s hwf isRet sel path h
+  · intro isRet sel path c h1 h2; exact bad_path_is_error s isRet sel path c h1 h2
+  · intro isRet path i hi; exact (bad_selector_is_error s isRet path).1 i hi
+
 /-! ## Finding F3: what happens without the lower-bound tests
 
 `Comp.stepWith false` / `Tuple.atWith false` are `Index` / `At` with only the
